@@ -300,7 +300,7 @@ def run(rep, tier, seed, replay):
         "sources are sequences of lines of lexemes (word = [A-Za-z0-9_]+, one punctuation character, double-quoted string, blank, comment); "
         "the text given to the real preprocessor is the concatenation of the spellings (binding re-checked by TLC: text = Render(src))",
         "outputs are compared as lexeme sequences per line, modulo horizontal white space outside strings; trailing empty lines ignored; "
-        "for sources with a #define continued over several lines empty lines are not compared (their number is C14's subject)",
+        "for sources with a #define or a text line continued by backslash-newline empty lines are not compared (their number is C14's subject)",
         "spacing conventions taken from tests/preprocess: a directive leaves an empty line, a continued line is one line, "
         "a function-like macro name without '(' directly behind it is left alone",
         "not generated (statement and golden files are silent): stringification of arguments containing macros/strings/blanks, white space "
